@@ -19,6 +19,7 @@ import (
 	"strings"
 	"testing"
 
+	"github.com/regclient/regclient/internal/verif/audit"
 	"github.com/regclient/regclient/internal/verif/ev"
 	"github.com/regclient/regclient/internal/verif/modelreg"
 )
@@ -259,14 +260,59 @@ type c18Result struct {
 	Final  c18Snap
 }
 
-// c18SnapDiff compares two dumps of both registries ("" when equal).
-func c18SnapDiff(a, b c18Snap) string {
-	var out []string
-	for _, h := range []string{c18SrcHost, c18TgtHost} {
-		for _, rn := range c18UnionKeys(a[h], b[h]) {
-			if d := c18DiffRepo(a[h][rn], b[h][rn]); d != "" {
-				out = append(out, h+"/"+rn+": "+d)
+// c18Canonical lists the content of both registries for the comparison of the two routes. Referrers
+// fallback tags (sha256-<hex>) and the indexes they point to are left out: the order of the entries in
+// such an index depends on the order in which concurrently copied referrers arrive.
+func c18Canonical(w *c18World) map[string]bool {
+	out := map[string]bool{}
+	w.net.With(func() {
+		for hn, h := range w.net.Hosts {
+			for rn, r := range h.Repos {
+				pfx := hn + "/" + rn + " "
+				out[pfx+"repository"] = true
+				for t, d := range r.Tags {
+					if m := c18DigestTagRe.FindStringSubmatch(t); m != nil && m[3] == "" {
+						continue
+					}
+					out[pfx+"tag "+t+"="+c18Short(d)] = true
+				}
+				for d := range r.Blobs {
+					out[pfx+"blob "+c18Short(d)] = true
+				}
+				for d, m := range r.Manifests {
+					if c18IsIndex(m.MediaType) {
+						refs := audit.References(m.Body, false)
+						fallback := len(refs) > 0
+						for _, c := range refs {
+							cm := r.Manifests[c]
+							if cm == nil || audit.Subject(cm.Body) == "" {
+								fallback = false
+							}
+						}
+						if fallback {
+							continue
+						}
+					}
+					out[pfx+"manifest "+c18Short(d)] = true
+				}
 			}
+		}
+	})
+	return out
+}
+
+// c18RouteDiff compares the final stores of the two routes ("" when equal).
+func c18RouteDiff(a, b *c18World) string {
+	ca, cb := c18Canonical(a), c18Canonical(b)
+	var out []string
+	for _, k := range c18SortedKeys(ca) {
+		if !cb[k] {
+			out = append(out, "only process route: "+k)
+		}
+	}
+	for _, k := range c18SortedKeys(cb) {
+		if !ca[k] {
+			out = append(out, "only command-line route: "+k)
 		}
 	}
 	return strings.Join(out, " | ")
@@ -385,7 +431,7 @@ func TestVerifC18(t *testing.T) {
 			// the same case through the command line; must be judged clean and end in the same stores
 			cc := c
 			cc.CLI = true
-			_, cres := c18Exec(cc, false, rec.Scratch)
+			cw, cres := c18Exec(cc, false, rec.Scratch)
 			count("cli.cases", 1)
 			count("cli.runs.action."+c.Action, int64(len(cres.Judges)))
 			for _, j := range cres.Judges {
@@ -406,7 +452,7 @@ func TestVerifC18(t *testing.T) {
 				}
 				rec.Violation(v.Key+" [cli-only]", "command-line route (NewRootCmd().Execute()) only: "+v.Msg+"\ncase "+c.String()+"\n"+w.yaml, cc)
 			}
-			if d := c18SnapDiff(res.Final, cres.Final); d != "" {
+			if d := c18RouteDiff(w, cw); d != "" {
 				rec.Violation("cli/differs-from-process-route", "the command-line route and the per-entry process route end in different stores: "+d+"\ncase "+c.String()+"\n"+w.yaml, cc)
 			}
 		}
